@@ -39,6 +39,11 @@ CHECKS = {
             "Every cone computed by the three analysis variants on generated systems and corpus designs is checked for tightness against an independent syntactic reachability and for sufficiency by pairs of reference executions that agree on the cone and differ elsewhere. Held on the roots and pairs executed.",
             "Sufficiency is sampled (32 pairs per root and variant), not proven.",
             "DESIGN.md §4 C17"),
+    "C08": ("exploration",
+            "runtime differential monitor: parse_str result vs a line-by-line reference btor2 interpreter working on the text",
+            "Every generated well-formed btor2 file is read by patronus and by an independent text-level interpreter (own tokenizer, sort table, BTOR2 typing rules, big-integer semantics); inputs/states/sorts are matched positionally and every output/bad/constraint/init/next is evaluated on both sides; single-token ill-sorted variants must be rejected. Held on the files executed.",
+            "R5 (BTOR2 paper) is the arbiter of well-formed / ill-sorted; values compared on 6 valuations per file.",
+            "DESIGN.md §4 C08"),
 }
 
 NOT_YET = {}
